@@ -12,10 +12,14 @@ var toyParams = map[int][5]int64{ // p -> n, b, gx, gy
 	79: {79, 67, 7, 1, 18}, 97: {97, 79, 7, 1, 28}, 127: {127, 127, 7, 1, 32},
 }
 
-func toyCurve(p int) koblitzCurve {
+// vToy (white box, wb_test.go): the package's generic curve type instantiated with other parameters.  Without it the
+// toy-curve events are not produced and only the real-size legs run.
+var vToy func(*elliptic.CurveParams) elliptic.Curve
+
+func toyCurve(p int) elliptic.Curve {
 	t := toyParams[p]
-	return koblitzCurve{&elliptic.CurveParams{P: big.NewInt(t[0]), N: big.NewInt(t[1]), B: big.NewInt(t[2]),
-		Gx: big.NewInt(t[3]), Gy: big.NewInt(t[4]), BitSize: 8, Name: "toy"}}
+	return vToy(&elliptic.CurveParams{P: big.NewInt(t[0]), N: big.NewInt(t[1]), B: big.NewInt(t[2]),
+		Gx: big.NewInt(t[3]), Gy: big.NewInt(t[4]), BitSize: 8, Name: "toy"})
 }
 
 func bi(v interface{}) *big.Int { return big.NewInt(int64(vIntOf(v))) }
@@ -159,9 +163,9 @@ func runF(op string, in M) (M, M) {
 		a, b := ptIn(in["x1"], in["y1"]), ptIn(in["x2"], in["y2"])
 		var x, y, dx, dy *big.Int
 		p := vCatch(func() {
-			x, y = secp256k1.Add(a.x, a.y, b.x, b.y)
+			x, y = Secp256k1().Add(a.x, a.y, b.x, b.y)
 			if in["double"] == true {
-				dx, dy = secp256k1.Double(a.x, a.y)
+				dx, dy = Secp256k1().Double(a.x, a.y)
 			}
 		})
 		out := ptOut(x, y)
@@ -181,12 +185,12 @@ func runF(op string, in M) (M, M) {
 		qq, s := new(big.Int).DivMod(sum, sn, new(big.Int))
 		sbytes := s.Bytes()
 		p := vCatch(func() {
-			ax, ay = secp256k1.ScalarBaseMult(ab)
-			bx, by = secp256k1.ScalarBaseMult(bb)
-			sx, sy = secp256k1.ScalarBaseMult(sbytes)
-			mx, my = secp256k1.ScalarMult(sgx, sgy, ab)
+			ax, ay = Secp256k1().ScalarBaseMult(ab)
+			bx, by = Secp256k1().ScalarBaseMult(bb)
+			sx, sy = Secp256k1().ScalarBaseMult(sbytes)
+			mx, my = Secp256k1().ScalarMult(sgx, sgy, ab)
 			if ax != nil && bx != nil {
-				abx, aby = secp256k1.Add(ax, ay, bx, by)
+				abx, aby = Secp256k1().Add(ax, ay, bx, by)
 			}
 		})
 		isNil := ax == nil || ay == nil || bx == nil || by == nil || sx == nil || sy == nil || abx == nil || aby == nil || mx == nil || my == nil
@@ -203,7 +207,7 @@ func runF(op string, in M) (M, M) {
 	case "ecb.OnCurve":
 		x, y := vFromLimbs(in["x"]), vFromLimbs(in["y"])
 		var on bool
-		p := vCatch(func() { on = secp256k1.IsOnCurve(x, y) })
+		p := vCatch(func() { on = Secp256k1().IsOnCurve(x, y) })
 		lhs := new(big.Int).Mul(y, y)
 		rhs := new(big.Int).Mul(x, x)
 		rhs.Mul(rhs, x).Add(rhs, big.NewInt(7))
@@ -218,6 +222,9 @@ func TestVerifDriver(t *testing.T) {
 	rec := vOpen()
 	defer rec.close()
 	emit := func(op string, in M) {
+		if len(op) > 4 && op[:4] == "ecs." && vToy == nil {
+			return
+		}
 		in = vNorm(in)
 		out, cert := runF(op, in)
 		rec.i++
